@@ -44,6 +44,9 @@ CODE_TEXT = {
     6: "MODEL vs rope: the resource moves differ",
     7: "the model has no token with the id of the query",
 }
+ALPHA_TEXT = {0: "not-applicable", 1: "in-domain-conclusion-holds", 2: "in-domain-conclusion-FAILS",
+              3: "outside-fragment-conclusion-holds", 4: "outside-fragment-conclusion-fails",
+              5: "in-fragment-but-structural-hypothesis-fails"}
 CLASS_TEXT = {0: "not-modelled", 1: "refused", 2: "raised", 3: "local", 4: "cross-module", 5: "module-wide", 6: "module-rename"}
 
 FIXED = [
@@ -196,11 +199,24 @@ def analyse(ctx, files, entry, rng, stream, only=None, exec_all=True):
             probs = []
             if o["kind"] == "changes":
                 probs = reduce_obs(p, files, m, t, o, nn)
-                probs += judge(an, files, entry, path, t.id if t is not None else None, o, nn)
+                jp, jt = path, (t.id if t is not None else None)
+                if t is None and offset is not None:
+                    for mm in p.mods:
+                        ids = o["edits"].get(mm.index) if mm.flat else o["edits_other"].get(mm.path)
+                        if ids:
+                            jp, jt, t = mm.path, ids[0], mm.by_id[ids[0]]
+                            break
+                probs += judge(an, files, entry, jp, jt, o, nn)
             an.queries.append((m, t, nn, keyword.iskeyword(nn), o, probs))
         else:
             for m in p.mods:
+                nb = 0
                 for t in m.tokens:
+                    if an.keys0[0].get((m.path, t.id), ("",))[0] == "builtin" if isinstance(an.keys0[0].get((m.path, t.id)), tuple) else False:
+                        # uses of builtins: a recorded finding (the rename is accepted); two per module are enough
+                        nb += 1
+                        if nb > 2 and stream != "fixed":
+                            continue
                     o = rp.rename(m.path, t.offset, an.new_name)
                     probs = []
                     if o["kind"] == "changes":
@@ -233,6 +249,24 @@ def analyse(ctx, files, entry, rng, stream, only=None, exec_all=True):
                 for (off, s) in other_offsets(m.src, rng, 3):
                     o = rp.rename(m.path, off, an.new_name)
                     probs = []
+                    if o["kind"] == "changes" and o["contents"]:
+                        # rope took the offset for an identifier next to it: judged like a rename of the binding
+                        # of the first token it respelled
+                        probs = reduce_obs(p, files, m, None, o, an.new_name)
+                        first = None
+                        for mm in p.mods:
+                            ids = o["edits"].get(mm.index) if mm.flat else o["edits_other"].get(mm.path)
+                            if ids:
+                                first = (mm, mm.by_id[ids[0]])
+                                break
+                        if first is not None:
+                            probs += judge(an, files, entry, first[0].path, first[1].id, o, an.new_name)
+                            q = (first[0], first[1], an.new_name, False, o, probs)
+                            an.shadow = getattr(an, "shadow", [])
+                            an.shadow.append(q + (m.path, off))
+                            an.other = getattr(an, "other", [])
+                            an.other.append((m, off, s, o, []))
+                            continue
                     if o["kind"] == "changes" and o["contents"]:
                         # rope took the offset for an identifier next to it: the result must still be a rename
                         after = o.get("after") or L.predicted_after(files, o)
@@ -268,6 +302,10 @@ def analyse(ctx, files, entry, rng, stream, only=None, exec_all=True):
         k = (m.path, t.id if t is not None else None)
         if not kw and k in bad_exec and o["kind"] == "changes":
             probs.append(bad_exec[k])
+    for q in getattr(an, "shadow", []):
+        k = (q[0].path, q[1].id)
+        if k in bad_exec:
+            q[5].append(bad_exec[k])
     for (m, off, s, o, probs) in getattr(an, "other", []):
         k = (m.path, ("off", off))
         if k in bad_exec:
@@ -299,22 +337,22 @@ def coq_queries(an):
 def case_file(ans):
     return (L.HEADER + "Definition cases : list case := [\n%s\n].\n"
             "Eval vm_compute in (mismatches cases).\nEval vm_compute in (all_classes cases).\n"
-            % ";\n".join(L.g_case(an.p, coq_queries(an)) for an in ans))
+            "Eval vm_compute in (all_alpha cases).\nEval vm_compute in (all_repaired cases).\n"
+            % ";\n".join(L.g_case(an.p, coq_queries(an), an.new_name) for an in ans))
 
 
 def coq_results(ctx, ans, chunk=6):
-    """per analysis: (code, [class per query])"""
+    """per analysis: ([(query index, code)], [class per query], [alpha class per query])"""
     bodies = [case_file(ans[i:i + chunk]) for i in range(0, len(ans), chunk)]
     outs = ctx.coq_files_parallel(bodies) if len(bodies) > 1 else [ctx.coq_file(b) for b in bodies]
     res = []
     for k, out in enumerate(outs):
         n = len(ans[k * chunk:(k + 1) * chunk])
         ev = parse_evals(out)
-        if len(ev) != 2:
+        if len(ev) != 4 or len(ev[0]) != n or len(ev[1]) != n or len(ev[2]) != n or len(ev[3]) != n:
             raise RuntimeError("unexpected coqc output:\n" + out[-2000:])
-        mism = dict(ev[0])
         for i in range(n):
-            res.append((mism.get(i, 0), ev[1][i]))
+            res.append((list(ev[0][i]), ev[1][i], ev[2][i], ev[3][i]))
     return res
 
 
@@ -325,12 +363,464 @@ def signature(obj):
     return obj.get("focus") or None
 
 
-def focus_of(an, m, t, o, probs):
+def focus_of(an, m, t, o, probs, model=False):
     """structural explanation of a failing rename from the sources alone (no rope, no model); None = unexplained"""
     target = o.get("target")
     if isinstance(target, tuple) and target[0] == "builtin":
         return "builtin-renamed"
+    if t is not None and re.fullmatch(r"__\w+__", t.name):
+        return "special-name-renamed"
+    if t is not None and module_alias(m, t.name) and o.get("moves"):
+        return "module-alias-moves-module"
+    name = t.name if t is not None else m.name.split(".")[-1]
+    mods = an.p.mods
+    if any(comp_first_iterable(x.tr.tree, name) for x in mods):
+        return "comprehension-first-iterable"
+    if any(import_rebound(x.tr.tree, name) for x in mods):
+        return "import-rebound"
+    for x in mods:
+        # ... or `name` is imported under an alias that is such a name (from m import name as k: the token is
+        # evaluated through k)
+        for c in ast.walk(x.tr.tree):
+            if isinstance(c, ast.ImportFrom):
+                for a in c.names:
+                    if a.name == name and a.asname and import_rebound(x.tr.tree, a.asname):
+                        return "import-rebound"
+    for x in mods:
+        # ... or the object of an attribute access .name is such a name
+        for c in ast.walk(x.tr.tree):
+            if isinstance(c, ast.Attribute) and c.attr == name and isinstance(c.value, ast.Name) \
+                    and import_rebound(x.tr.tree, c.value.id):
+                return "import-rebound"
+    if same_line_conflation(mods, name):
+        return "same-line-import-conflation"
+    if any(class_body_read_before_bind(x.tr.tree, name) for x in mods):
+        return "class-body-read-before-bind"
+    for x in mods:
+        # ... or `name` is an attribute of a class whose body reads another name before binding it (the value rope
+        # infers for the attribute, and through it the objects of `self`, then comes from the wrong callee)
+        for c in ast.walk(x.tr.tree):
+            if isinstance(c, ast.ClassDef):
+                attrs = {n.id for st in c.body if not isinstance(st, (ast.FunctionDef, ast.AsyncFunctionDef, ast.ClassDef))
+                         for n in ast.walk(st) if isinstance(n, ast.Name) and isinstance(n.ctx, ast.Store)}
+                attrs |= {n.attr for n in ast.walk(c) if isinstance(n, ast.Attribute) and isinstance(n.ctx, ast.Store)}
+                if name in attrs:
+                    others = {n.id for st in c.body for n in ast.walk(st) if isinstance(n, ast.Name)} - {name}
+                    mini = ast.Module(body=[c], type_ignores=[])
+                    if any(class_body_read_before_bind(mini, f) for f in others):
+                        return "class-body-read-before-bind"
+    for x in mods:
+        # ... or the callee of a keyword argument spelled `name` is such a name
+        for c in ast.walk(x.tr.tree):
+            if isinstance(c, ast.Call) and isinstance(c.func, ast.Name) and any(k.arg == name for k in c.keywords) \
+                    and class_body_read_before_bind(x.tr.tree, c.func.id):
+                return "class-body-read-before-bind"
+    if any(param_of_rebound_def(x.tr.tree, name) for x in mods):
+        return "param-default-of-rebound-def"
+    if any(special_param(x.tr.tree, name) for x in mods):
+        return "keyword-only-parameter"
+    if any(class_body_attribute_lookup(x.tr.tree, name) for x in mods):
+        return "class-body-attribute-lookup"
+    if any(kwarg_in_fstring(x.tr.tree, name) for x in mods):
+        return "keyword-argument-in-fstring"
+    if any(nonlocal_decl(x.tr.tree, name) for x in mods):
+        return "nonlocal-declaration"
+    if any(header_expression(x.tr.tree, name) for x in mods):
+        return "header-expression"
+    if instance_attribute_hides_inherited([x.tr.tree for x in mods], name):
+        return "instance-attribute-hides-inherited"
+    # defects that were repaired in /repo (their replays live in corpus/C01): checked last, so that a failure
+    # with a recorded cause is not attributed to them
+    if (model or any(p.startswith(("skeleton:", "parse:")) for p in probs)) and any(name.lower() in string_prefixes(x.src) for x in mods):
+        return "string-prefix-as-occurrence"
+    if any(genexp_first_token(x.tr.tree, x.src, name) for x in mods):
+        return "genexp-first-token"
     return None
+
+
+def header_expression(tree, name):
+    """the header of a def / class (default values, annotations, decorators, base classes) reads `name`, and the
+    scope being defined binds `name` itself (parameter, assignment, def, class, import): rope evaluates the header
+    inside that scope (finding C02-header-expression)"""
+    for n in ast.walk(tree):
+        if isinstance(n, (ast.FunctionDef, ast.AsyncFunctionDef)):
+            a = n.args
+            every = a.posonlyargs + a.args + a.kwonlyargs + [x for x in (a.vararg, a.kwarg) if x]
+            header = list(n.decorator_list) + list(a.defaults) + [x for x in a.kw_defaults if x is not None] \
+                + [x.annotation for x in every if x.annotation is not None] + ([n.returns] if n.returns else [])
+            bound = {x.arg for x in every}
+        elif isinstance(n, ast.ClassDef):
+            header = list(n.decorator_list) + list(n.bases) + [k.value for k in n.keywords]
+            bound = set()
+        else:
+            continue
+        if not any(name in target_ids(h) for h in header):
+            continue
+        for s in n.body:
+            for x in ast.walk(s):
+                if isinstance(x, ast.Name) and isinstance(x.ctx, (ast.Store, ast.Del)):
+                    bound.add(x.id)
+                elif isinstance(x, (ast.FunctionDef, ast.AsyncFunctionDef, ast.ClassDef)):
+                    bound.add(x.name)
+                elif isinstance(x, ast.alias):
+                    bound.add((x.asname or x.name).split(".")[0])
+                elif isinstance(x, ast.Attribute) and isinstance(n, ast.ClassDef) and isinstance(x.ctx, ast.Store):
+                    bound.add(x.attr)       # self.<name> counts as an attribute of the class for rope
+        if name in bound or (isinstance(n, ast.ClassDef) and n.bases):
+            return True
+    return False
+
+
+def nonlocal_decl(tree, name):
+    return any(isinstance(n, ast.Nonlocal) and name in n.names for n in ast.walk(tree))
+
+
+def instance_attribute_hides_inherited(trees, name):
+    """a class with base classes assigns self.<name> in a method and does not bind <name> in its body, while
+    another class binds <name> in its body: rope takes K.<name> for the instance attribute of K"""
+    binders, hiders = False, False
+    for tree in trees:
+        for c in ast.walk(tree):
+            if not isinstance(c, ast.ClassDef):
+                continue
+            own = False
+            for s in c.body:
+                if isinstance(s, (ast.FunctionDef, ast.AsyncFunctionDef, ast.ClassDef)):
+                    own = own or s.name == name
+                else:
+                    own = own or any(isinstance(n, ast.Name) and n.id == name and isinstance(n.ctx, ast.Store)
+                                     for n in ast.walk(s))
+            if own:
+                binders = True
+            elif c.bases:
+                for s in c.body:
+                    if isinstance(s, (ast.FunctionDef, ast.AsyncFunctionDef)):
+                        for n in ast.walk(s):
+                            if isinstance(n, ast.Attribute) and n.attr == name and isinstance(n.ctx, ast.Store):
+                                hiders = True
+    return binders and hiders
+
+
+def kwarg_in_fstring(tree, name):
+    """f"{f(name=...)}": a keyword argument spelled `name` inside a replacement field"""
+    for n in ast.walk(tree):
+        if isinstance(n, ast.JoinedStr):
+            for c in ast.walk(n):
+                if isinstance(c, ast.keyword) and c.arg == name:
+                    return True
+                if isinstance(c, ast.arg) and c.arg == name:        # parameter of a lambda in the field
+                    return True
+    return False
+
+
+def class_body_attribute_lookup(tree, name):
+    """a class body reads `name` without binding it, and the class has base classes or a method that assigns
+    self.<name>: rope finds the inherited / instance attribute, Python the enclosing binding (finding C15)"""
+    for c in ast.walk(tree):
+        if not isinstance(c, ast.ClassDef):
+            continue
+        reads = binds = selfattr = False
+        for s in c.body:
+            if isinstance(s, (ast.FunctionDef, ast.AsyncFunctionDef)):
+                if s.name == name:
+                    binds = True
+                for d in s.decorator_list + s.args.defaults + [x for x in s.args.kw_defaults if x is not None]:
+                    reads = reads or name in target_ids(d)
+                for n in ast.walk(s):
+                    if isinstance(n, ast.Attribute) and n.attr == name and isinstance(n.ctx, ast.Store):
+                        selfattr = True
+                continue
+            if isinstance(s, ast.ClassDef):
+                if s.name == name:
+                    binds = True
+                continue
+            for n in ast.walk(s):
+                if isinstance(n, ast.Name) and n.id == name:
+                    if isinstance(n.ctx, ast.Load):
+                        reads = True
+                    else:
+                        binds = True
+        if reads and not binds and (c.bases or selfattr):
+            return True
+    return False
+
+
+def special_param(tree, name):
+    """a keyword-only or positional-only parameter spelled `name` (rope's function scopes do not hold them)"""
+    for n in ast.walk(tree):
+        if isinstance(n, (ast.FunctionDef, ast.AsyncFunctionDef, ast.Lambda)):
+            if name in [a.arg for a in n.args.kwonlyargs + n.args.posonlyargs]:
+                return True
+    return False
+
+
+def param_of_rebound_def(tree, name):
+    """def f(..., name=default, ...) in a block that binds f a second time (def, class, import, assignment)"""
+    for n in ast.walk(tree):
+        if not isinstance(n, (ast.Module, ast.FunctionDef, ast.AsyncFunctionDef, ast.ClassDef)):
+            continue
+        count = {}
+        defs = []
+
+        def scan(body):
+            for s in body:
+                if isinstance(s, (ast.FunctionDef, ast.AsyncFunctionDef, ast.ClassDef)):
+                    count[s.name] = count.get(s.name, 0) + 1
+                    if not isinstance(s, ast.ClassDef):
+                        defs.append(s)
+                    continue
+                if isinstance(s, ast.Import):
+                    for a in s.names:
+                        k = a.asname or a.name.split(".")[0]
+                        count[k] = count.get(k, 0) + 1
+                elif isinstance(s, ast.ImportFrom):
+                    for a in s.names:
+                        k = a.asname or a.name
+                        count[k] = count.get(k, 0) + 1
+                else:
+                    for x in ast.walk(s):
+                        if isinstance(x, ast.Name) and isinstance(x.ctx, ast.Store):
+                            count[x.id] = count.get(x.id, 0) + 1
+                for f in ("body", "orelse", "finalbody"):
+                    b = getattr(s, f, None)
+                    if isinstance(b, list) and b and isinstance(b[0], ast.stmt):
+                        scan(b)
+                for h in getattr(s, "handlers", []) or []:
+                    scan(h.body)
+
+        scan(n.body)
+        for d in defs:
+            if count.get(d.name, 0) > 1:
+                a = d.args
+                pos = a.posonlyargs + a.args
+                defaulted = [x.arg for x in pos[len(pos) - len(a.defaults):]]
+                defaulted += [x.arg for x, dv in zip(a.kwonlyargs, a.kw_defaults) if dv is not None]
+                if name in defaulted:
+                    return True
+    return False
+
+
+def same_line_conflation(mods, name):
+    """some module imports N from project module M under the spelling `name` (imports of imports followed), and
+    the module that defines N binds `name` a second time on the line that first binds N at module level (another
+    scope, or another variable when N != name)"""
+    by_name = {x.name: x for x in mods}
+
+    def origin(mod, n, fuel=6):
+        """(module observation, name) that `n` of module `mod` stands for"""
+        while fuel:
+            fuel -= 1
+            src = by_name.get(mod)
+            if src is None:
+                return None
+            hop = None
+            for st in ast.walk(src.tr.tree):
+                if isinstance(st, ast.ImportFrom) and not st.level and st.module in by_name:
+                    for a in st.names:
+                        if (a.asname or a.name) == n:
+                            hop = (st.module, a.name)
+            if hop is None:
+                return src, n
+            mod, n = hop
+        return None
+
+    for x in mods:
+        for st in ast.walk(x.tr.tree):
+            if isinstance(st, ast.ImportFrom) and not st.level and st.module in by_name:
+                for a in st.names:
+                    if (a.asname or a.name) != name:
+                        continue
+                    o = origin(st.module, a.name)
+                    if o is None:
+                        continue
+                    src, n = o
+                    line = first_binding_line(src.tr.tree, n)
+                    if line is None:
+                        continue
+                    count = 0
+                    for tk in src.tokens:
+                        if tk.line == line and tk.name == name and tk.kind in ("KStore", "KParam", "KDefName", "KClassName"):
+                            count += 1
+                    if count > (1 if n == name else 0):
+                        return True
+    return False
+
+
+def first_binding_line(tree, name):
+    """line of the first statement executed at module level that binds `name` in the module's own scope"""
+    scoped = (ast.FunctionDef, ast.AsyncFunctionDef, ast.ClassDef, ast.Lambda, ast.ListComp, ast.SetComp,
+              ast.DictComp, ast.GeneratorExp)
+
+    def binds(node):
+        if isinstance(node, ast.Name) and isinstance(node.ctx, ast.Store) and node.id == name:
+            return True
+        if isinstance(node, ast.alias) and (node.asname or node.name).split(".")[0] == name:
+            return True
+        for c in ast.iter_child_nodes(node):
+            if isinstance(c, scoped):
+                if isinstance(c, (ast.FunctionDef, ast.AsyncFunctionDef, ast.ClassDef)) and c.name == name:
+                    return True
+                continue
+            if binds(c):
+                return True
+        return False
+
+    for s in tree.body:
+        if isinstance(s, (ast.FunctionDef, ast.AsyncFunctionDef, ast.ClassDef)):
+            if s.name == name:
+                return s.lineno
+            continue
+        if binds(s):
+            for n in ast.walk(s):
+                if isinstance(n, ast.Name) and isinstance(n.ctx, ast.Store) and n.id == name:
+                    return n.lineno
+            return s.lineno
+    return None
+
+
+def class_body_read_before_bind(tree, name):
+    """a class body reads `name` and also binds it (the read may see the global at run time)"""
+    for c in ast.walk(tree):
+        if isinstance(c, ast.ClassDef):
+            reads = binds = False
+            for s in c.body:
+                if isinstance(s, (ast.FunctionDef, ast.AsyncFunctionDef, ast.ClassDef)):
+                    if s.name == name:
+                        binds = True
+                    for d in s.decorator_list + (s.args.defaults if hasattr(s, "args") else []):
+                        reads = reads or name in target_ids(d)
+                    continue
+                for n in ast.walk(s):
+                    if isinstance(n, ast.Name) and n.id == name:
+                        if isinstance(n.ctx, ast.Load):
+                            reads = True
+                        else:
+                            binds = True
+            if reads and binds:
+                return True
+    return False
+
+
+def genexp_first_token(tree, src, name):
+    """f(name ... for name in ...): the generator expression has no parentheses of its own and its element starts
+    with the variable it binds"""
+    ls = L.c02_lib.line_starts(src)
+    for n in ast.walk(tree):
+        if isinstance(n, ast.Call) and len(n.args) == 1 and not n.keywords and isinstance(n.args[0], ast.GeneratorExp):
+            g = n.args[0]
+            between = src[ls[n.func.end_lineno - 1] + n.func.end_col_offset:ls[g.elt.lineno - 1] + g.elt.col_offset]
+            if between.strip() == "(":
+                first = g.elt
+                while True:
+                    kids = [c for c in ast.iter_child_nodes(first) if isinstance(c, ast.expr)]
+                    kids = [c for c in kids if (c.lineno, c.col_offset) == (first.lineno, first.col_offset)]
+                    if isinstance(first, ast.Name) or not kids:
+                        break
+                    first = kids[0]
+                bound = set()
+                for gg in g.generators:
+                    bound |= target_ids(gg.target)
+                if isinstance(first, ast.Name) and first.id == name and name in bound:
+                    return True
+    return False
+
+
+def import_rebound(tree, name):
+    """some block binds `name` by an import statement and also by another import (of something else), a def or a
+    class: rope keeps one PyName per scope and name"""
+    def scan(body):
+        found = set()
+        for s in body:
+            if isinstance(s, ast.Import):
+                for a in s.names:
+                    if (a.asname or a.name.split(".")[0]) == name:
+                        found.add(("mod", a.name))
+            elif isinstance(s, ast.ImportFrom):
+                for a in s.names:
+                    if (a.asname or a.name) == name:
+                        found.add(("name", s.level, s.module, a.name))
+            elif isinstance(s, (ast.FunctionDef, ast.AsyncFunctionDef, ast.ClassDef)):
+                if s.name == name:
+                    found.add(("def", s.lineno))
+            else:
+                for f in ("body", "orelse", "finalbody"):
+                    b = getattr(s, f, None)
+                    if isinstance(b, list) and b and isinstance(b[0], ast.stmt):
+                        found |= scan(b)
+                for h in getattr(s, "handlers", []) or []:
+                    found |= scan(h.body)
+        return found
+    for n in ast.walk(tree):
+        if isinstance(n, (ast.Module, ast.FunctionDef, ast.AsyncFunctionDef, ast.ClassDef)):
+            f = scan(n.body)
+            if len(f) > 1 and any(x[0] in ("mod", "name") for x in f):
+                return True
+    return False
+
+
+def string_prefixes(src):
+    out = set()
+    try:
+        for tk in tokenize.generate_tokens(io.StringIO(src).readline):
+            if tk.type == _token.STRING or tk.type == getattr(_token, "FSTRING_START", -1):
+                mm = re.match(r"[A-Za-z]+", tk.string)
+                if mm:
+                    out.add(mm.group(0).lower())
+    except (tokenize.TokenError, IndentationError):
+        pass
+    return out
+
+
+def target_ids(t):
+    return {n.id for n in ast.walk(t) if isinstance(n, ast.Name)}
+
+
+def comp_first_iterable(tree, name):
+    """a comprehension binds `name` and its first iterable (evaluated OUTSIDE the comprehension) reads `name`"""
+    for n in ast.walk(tree):
+        if isinstance(n, (ast.ListComp, ast.SetComp, ast.DictComp, ast.GeneratorExp)):
+            bound = set()
+            for g in n.generators:
+                bound |= target_ids(g.target)
+            if name in bound and name in target_ids(n.generators[0].iter):
+                return True
+    return False
+
+
+def module_alias(m, name):
+    """`name` is bound in module m by `import a[.b] as name` or `from p import q as name` with another spelling
+    than the imported module / name"""
+    for n in ast.walk(m.tr.tree):
+        if isinstance(n, ast.Import):
+            for a in n.names:
+                if a.asname == name and a.name.split(".")[-1] != name:
+                    return True
+        elif isinstance(n, ast.ImportFrom):
+            for a in n.names:
+                if a.asname == name and a.name != name:
+                    return True
+    return False
+
+
+def unexplained_mismatches(ctx, an, bad, count=False):
+    """the model / rope disagreements that no open finding explains: [(query index, code, query, focus)]"""
+    qs = coq_queries(an)
+    by_key = {}
+    for q in an.queries:
+        by_key[(q[0].path, q[1].id if q[1] is not None else 999999, q[3])] = q
+    known = {f["signature"] for f in ctx.findings if f.get("property") == PROPERTY}
+    out = []
+    for (qi, c) in bad:
+        who = qs[qi]
+        mm = an.p.flat[who[0]]
+        q = by_key.get((mm.path, who[1], who[2]))
+        focus = focus_of(an, q[0], q[1], q[4], q[5], model=True) if q is not None else None
+        if focus is not None and focus in known:
+            if count:
+                ctx.count("model_mismatch_explained:" + focus)
+            continue
+        out.append((qi, c, who, focus))
+    return out
 
 
 def replay_obj(an, m, t, nn, o, probs, focus):
@@ -348,8 +838,8 @@ def replay(ctx, obj):
         an = analyse(ctx, obj["files"], obj["entry"], random.Random(0), "replay", exec_all=False)
         if an is None:
             return True
-        (code, _), = coq_results(ctx, [an])
-        return code != 0
+        (bad, _, alpha, _), = coq_results(ctx, [an])
+        return bool(unexplained_mismatches(ctx, an, bad)) or 2 in alpha or 5 in alpha
     if obj.get("kind") != "rename":
         return True
     an = analyse(ctx, obj["files"], obj["entry"], random.Random(0), "replay",
@@ -397,8 +887,10 @@ def collector_mismatches(ctx, cases):
     body = (L.HEADER + "From RopeVerif.Lib Require Import Text.\nDefinition ccases : list ccase := [\n%s\n].\n"
             "Eval vm_compute in (cmismatches ccases).\n" % ";\n".join(terms))
     out = ctx.coq_file(body)
-    nums = ctx.parse_nums(out)
-    return nums[0] if nums else [0]
+    ev = parse_evals(out)
+    if len(ev) != 1:
+        raise RuntimeError("unexpected coqc output:\n" + out[-2000:])
+    return list(ev[0])
 
 
 # ============================================================================ run
@@ -414,6 +906,16 @@ def report(ctx, an, code, classes):
                 ctx.violation(replay_obj(an, m, t, nn, o, probs, focus),
                               "rename of %r in %s to %r: %s" % (t.name if t is not None else m.name, m.path, nn,
                                                                  " | ".join(probs[:3])))
+    for (m, t, nn, kw, o, probs, qpath, qoff) in getattr(an, "shadow", []):
+        if probs:
+            bad += 1
+            focus = focus_of(an, m, t, o, probs)
+            ctx.count("oracle_failures:" + (focus or "unexplained"))
+            if not ctx.too_many():
+                obj = replay_obj(an, m, t, nn, o, probs, focus)
+                obj["path"], obj["offset"] = qpath, qoff
+                ctx.violation(obj, "rename at offset %d of %s (next to %r) to %r: %s" % (qoff, qpath, t.name, nn,
+                                                                                       " | ".join(probs[:3])))
     for (m, off, s, o, probs) in getattr(an, "other", []):
         if probs:
             bad += 1
@@ -423,20 +925,15 @@ def report(ctx, an, code, classes):
                                "token": s, "new_name": an.new_name, "problems": probs[:6], "focus": None,
                                "stream": an.stream},
                               "rename at offset %d (%r) of %s: %s" % (off, s, m.path, " | ".join(probs[:3])))
-    if code != 0:
-        qs = coq_queries(an)
-        qi, c = code // 10, code % 10
-        who = qs[qi] if qi < len(qs) else None
-        desc = ""
-        if who is not None:
-            mm = an.p.flat[who[0]]
-            tt = mm.by_id.get(who[1])
-            desc = " at %s token %s (%r, line %s) observed %s" % (
-                mm.path, who[1], tt.name if tt else "<module>", tt.line if tt else "-",
-                {k: v for k, v in who[3].items() if k in ("kind", "exc", "local", "edits", "moved")})
+    for (qi, c, who, focus) in unexplained_mismatches(ctx, an, code, count=True):
+        mm = an.p.flat[who[0]]
+        tt = mm.by_id.get(who[1])
+        desc = " at %s token %s (%r, line %s) observed %s" % (
+            mm.path, who[1], tt.name if tt else "<module>", tt.line if tt else "-",
+            {k: v for k, v in who[3].items() if k in ("kind", "exc", "local", "edits", "moved")})
         ctx.count("model_mismatches")
         if not ctx.too_many():
-            ctx.violation({"kind": "coq", "files": an.files, "entry": an.entry, "code": code,
+            ctx.violation({"kind": "coq", "files": an.files, "entry": an.entry, "code": c, "query": qi,
                            "broken": "correspondence of coq/C01/Rename.v (project_rename) with rope.refactor.rename; "
                                      "theorems C01_alpha / C01_local_shortcut_complete speak about that model"},
                           "%s%s" % (CODE_TEXT.get(c, "code %d" % c), desc), no_input=(bad == 0))
@@ -464,14 +961,14 @@ def run(ctx):
             ctx.count("collector_cases")
         ctx.traces += len(chunk)
     # ---- projects
-    n_main = ctx.scale(22, 400)
-    n_plus = ctx.scale(6, 120)
+    n_main = ctx.scale(8, 60)
+    n_plus = ctx.scale(8, 48)
     plan = [("fixed", dict(pr), ()) for pr in FIXED]
     for _ in range(n_main):
         plan.append(("main", None, ()))
-    feats = ["kwonly", "nonlocal", "header", "classbody", "lambda", "builtin", "package"]
+    feats = ["kwonly", "nonlocal", "header", "classbody", "lambda", "builtin", "package", "compiter", "fstring", "reimport", "genexp", "sameline", "unvisited", "redef", "misattached", "shadowattr"]
     for k in range(n_plus):
-        plan.append(("plus", None, (feats[k % len(feats)],)))
+        plan.append(("plus", None, (feats[(k + 5 * ctx.seed) % len(feats)],)))
     batch = []
     for (stream, pr, features) in plan:
         if ctx.too_many():
@@ -501,10 +998,21 @@ def run(ctx):
 
 def flush(ctx, batch):
     res = coq_results(ctx, batch)
-    for an, (code, classes) in zip(batch, res):
+    for an, (code, classes, alpha, repaired) in zip(batch, res):
         qs = coq_queries(an)
+        if repaired:
+            ctx.count("rope_shows_the_repaired_behaviour_of_a_recorded_finding", repaired)
         for (q, cl) in zip(qs, classes):
             ctx.count("model:" + CLASS_TEXT.get(cl, str(cl)))
+        for (q, a) in zip(qs, alpha):
+            ctx.count("theorem:" + ALPHA_TEXT.get(a, str(a)))
+            if a in (2, 5) and not ctx.too_many():
+                mm = an.p.flat[q[0]]
+                tt = mm.by_id.get(q[1])
+                ctx.violation({"kind": "coq", "files": an.files, "entry": an.entry, "code": 20 + a, "query": list(q[:2]),
+                               "broken": "C01_alpha_partial: %s" % ALPHA_TEXT[a]},
+                              "alpha theorem on the case: %s at %s token %r" % (ALPHA_TEXT[a], mm.path, tt.name if tt else None),
+                              no_input=True)
         for (m, t, nn, kw, o, probs) in an.queries:
             changed = o["kind"] == "changes" and (o["contents"] or o["moves"])
             ctx.case((tree_hash(an.files), m.path, t.id if t is not None else None, nn), nontrivial=bool(changed))
